@@ -523,7 +523,7 @@ impl Stage for Replies {
 pub fn spec() -> PropertySpec {
     PropertySpec {
         id: "C05",
-        stages: vec![Box::new(Replies)],
+        stages: vec![Box::new(Replies), Box::new(super::c17::Sizes { discipline: true })],
         assumptions: vec![
             "Replies are attributed to an injected datagram when the node hands a y=r/e datagram for the same source address to the network within the same virtual millisecond (all node-side processing is instantaneous in virtual time).".into(),
             "A random 20-byte token is accepted with probability 2^-31; violations are confirmed by re-execution before being reported.".into(),
